@@ -829,6 +829,20 @@ class Interp:
                         raise PyRaise(self.new_exc(self.class_by_qual(ends[kk - 1]), [VStr(c="raised by the generator")]))
                 from . import symlist
                 return symlist.concat_lists(self, [src], name="copied")
+        if len(gens) == 1 and not gens[0].ifs and not gens[0].is_async and isinstance(gens[0].target, ast.Name) and self.pure_expr(node.elt, fr):
+            # [f(x) for x in xs] over a list of symbolic length: a list of the same length whose i-th element is f(xs[i]) (evaluated on demand)
+            src = self.resolve(self.ev(gens[0].iter, fr))
+            if isinstance(src, VRef) and self.hobj(src).kind == "symlist" and not self.hobj(src).meta.get("raises_at_end"):
+                from . import symlist
+                so = self.hobj(src)
+                tname = gens[0].target.id
+
+                def factory(idx, so=so, src=src):
+                    f2 = Frame(fr.module, locals={tname: symlist.getitem(self, src, so, idx)}, parent=fr, cls=fr.cls, func=fr.func)
+                    return self.ev(node.elt, f2)
+                out = symlist.make(self, self.contracts, "mapped", "mapped", length=so.meta["len"])
+                self.hobj(out).meta["elem_factory"] = factory
+                return out
         if (len(gens) == 2 and not gens[0].ifs and not gens[1].ifs and isinstance(node.elt, ast.Name)
                 and isinstance(gens[1].target, ast.Name) and node.elt.id == gens[1].target.id):
             # [x for a in A for x in f(a)] : concatenation (the inner lists may be symbolic)
